@@ -125,7 +125,7 @@ func (s *sim) c05Evaluate(r *tickRec, hist map[string][]c05Eval, now time.Time) 
 // TestVerifC05: an automatic failover request is filed only when every gate is open.
 func TestVerifC05(t *testing.T) {
 	stt := vs.NewStats(t, "C05")
-	stt.Rule = "histories over converged clusters of 2-4 HA hosts (semi-sync with wait count 1-2, or async) with failover on/off, failover_delay 0/10s/60s, cooldown 5m/60m, resetup_crashed_hosts on/off: 12-45 actions from {tick of a drawn process, health check of a drawn process, round, time advance 1s-61min, master crash/start (plain or with crash-recovery marker), master isolated from the manager only, master's mysync killed/restarted, ZooKeeper cut of the master, read-only filesystem flag, replica crash/start, full/light maintenance on/leave, operator request/abort, stale active list, injected last_switch record (cause x age), manager's mysync killed/restarted}; oracle at every creation of 'switch' with cause auto: every gate of the statement evaluated from the coordination tree and the servers' reachability/ground truth at the start of the filing iteration plus the per-process history of master-record evaluations; converse clause for iterations that cannot reach a master whose own record is good; non-trivial = a failover was filed, or an iteration saw a bad master record with exactly one gate closed"
+	stt.Rule = "histories over converged clusters of 2-4 HA hosts +0-1 cascade replica (semi-sync with wait count 1-2, or async) with failover on/off, failover_delay 0/10s/60s, cooldown 5m/60m, resetup_crashed_hosts on/off: 12-45 actions from {tick of a drawn process, health check of a drawn process, round, time advance 1s-61min, master crash/start (plain or with crash-recovery marker), master isolated from the manager only, master's mysync killed/restarted, ZooKeeper cut of the master, read-only filesystem flag, replica crash/start, full/light maintenance on/leave, operator request/abort, stale active list, injected last_switch record (cause x age), manager's mysync killed/restarted}; oracle at every creation of 'switch' with cause auto: every gate of the statement evaluated from the coordination tree and the servers' reachability/ground truth at the start of the filing iteration plus the per-process history of master-record evaluations; converse clause for iterations that cannot reach a master whose own record is good; non-trivial = a failover was filed, or an iteration saw a bad master record with exactly one gate closed"
 	stt.Assumptions = simAssumptions
 	stt.Check(t, vs.CheckOpts{Bubble: true}, func(c *vs.Case) {
 		n := c.Src.Int("ha_hosts", 2, 4)
@@ -136,6 +136,9 @@ func TestVerifC05(t *testing.T) {
 			"failover": fmt.Sprint(c.Src.Int("failover", 0, 4) != 0), "failover_delay": c.Src.Pick("failover_delay", "0s", "10s", "60s"),
 			"failover_cooldown": c.Src.Pick("cooldown", "5m", "60m"), "resetup_crashed_hosts": fmt.Sprint(c.Src.Int("resetup_crashed", 0, 2) == 0),
 			"inactivation_delay": "5s", "slave_catch_up_timeout": "20s"}}
+		if c.Src.Int("cascade", 0, 2) == 0 {
+			o.Cascade = map[string]string{"c1": ha[c.Src.Int("cascade_source", 0, n-1)]}
+		}
 		dir, _ := os.MkdirTemp("", "verifsim")
 		defer os.RemoveAll(dir)
 		s := newSim(c, c.RTOrT(t), dir, o)
